@@ -117,6 +117,10 @@ SHAPES = [
     ("lambda", ["{i}(lambda: helper.boom(make))()"], 0),
     ("long_line", ["{i}raise make(" + ", ".join(str(k) for k in range(70)) + ")"], 0),
     ("continuation", ["{i}raise \\", "{i}    make()"], 0),
+    # a continuation line that holds nothing but the backslash, before the failing statement
+    ("continuation_blank", ["{i}v = 1 + \\", "{i}    \\", "{i}    2", "{i}raise make()"], 3),
+    # the file begins with a lone continuation backslash (legal: joins an empty line with the next one)
+    ("continuation_leading", ["\\", "raise make()"], 1),
     ("fstring", ["{i}raise make(f\"{1 + 1} {'q'!r:>4} z\")"], 0),
     ("fstring_braces", ['{i}raise make(f"{{literal}} {1 + 1}")'], 0),
     ("fstring_multiline", ['{i}raise make(f"""a {', "{i}    1 + 1", '{i}} b""")'], 0),
@@ -171,6 +175,8 @@ def gen_source(L, T, shape):
         return None
     if shape == "noeol" and end != L:
         return None
+    if shape == "continuation_leading" and start != 1:
+        return None  # the lone backslash must be the first line of the file
     module_level = start == 1
     ind = "" if module_level else ("\t" if shape == "tabs" else "    ")
     lines = []
@@ -359,6 +365,37 @@ def source_info(data):
     return lines, multi
 
 
+def differing_line_kind(lines, n, shown):
+    """How source line n differs from what is shown, most specific first.  The two kinds that are listed as known findings are
+    recognised narrowly, so that any other difference keeps a signature of its own:
+      continuation                   the line ends in a continuation backslash and is shown exactly without it
+      shifted-by-blank-continuation  a line holding nothing but a backslash stands above, and the text shown is the
+                                     neighbouring source line (everything below such a line is moved by one)"""
+    src = lines[n - 1]
+    if src.rstrip().endswith("\\") and nreg(shown).rstrip() == nreg(src.rstrip()[:-1]).rstrip():
+        return "continuation"
+    if any(l.strip() == "\\" for l in lines[:n]):
+        near = [lines[k] for k in (n - 2, n) if 0 <= k < len(lines)]
+        if any(nreg(shown).strip() == nreg(x.rstrip().rstrip("\\")).strip() for x in near) or nreg(shown).strip() == "":
+            return "shifted-by-blank-continuation"
+    f = line_feature(src)
+    return "continuation-other" if f == "continuation" else f
+
+
+_KNOWN_KINDS = ("continuation", "shifted-by-blank-continuation")
+
+
+def worst_difference(diffs):
+    """diffs = [(n, source, shown, kind)] -> the one to report: a kind that is not a known finding first"""
+    for d in diffs:
+        if d[3] not in _KNOWN_KINDS:
+            return d
+    for d in diffs:
+        if d[3] == "shifted-by-blank-continuation":
+            return d
+    return diffs[0]
+
+
 def line_feature(src):
     s = src.rstrip()
     if s.endswith("\\"):
@@ -467,6 +504,7 @@ def check_render(env, case, exc, verb, utf8, ignore, ansi, simple, keep_caches=F
         info = source_of(hdr[0])
         if info:
             lines, multi = info
+            diffs = []
             for _, n, shown in rows:
                 if n == len(lines) + 1 and shown.strip() == "":
                     # An empty extra line after the final newline of a file that ends inside an indented block is
@@ -478,8 +516,10 @@ def check_render(env, case, exc, verb, utf8, ignore, ansi, simple, keep_caches=F
                 if multi is None or n in multi:
                     continue
                 if nreg(shown).rstrip() != nreg(lines[n - 1]).rstrip():
-                    return bad("snippet:line-differs:" + line_feature(lines[n - 1]), "%s snippet of %s shows line %d differently" % (where, hdr[0], n),
-                               lines[n - 1], shown)
+                    diffs.append((n, lines[n - 1], shown, differing_line_kind(lines, n, shown)))
+            if diffs:
+                n, src, shown, kind = worst_difference(diffs)
+                return bad("snippet:line-differs:" + kind, "%s snippet of %s shows line %d differently" % (where, hdr[0], n), src, shown)
         return None
 
     last = frames[-1]
@@ -520,7 +560,7 @@ def check_render(env, case, exc, verb, utf8, ignore, ansi, simple, keep_caches=F
             if info and info[1] is not None and hdr[1] <= len(info[0]) and hdr[1] not in info[1]:
                 src = info[0][hdr[1] - 1]
                 if nreg(code).strip() != nreg(src).strip():
-                    return bad("trace:stack-line-differs:" + line_feature(src), "listing shows line %d of %s differently" % (hdr[1], hdr[0]), src.strip(), code.strip())
+                    return bad("trace:stack-line-differs:" + differing_line_kind(info[0], hdr[1], code), "listing shows line %d of %s differently" % (hdr[1], hdr[0]), src.strip(), code.strip())
     return None
 
 
@@ -555,6 +595,7 @@ def check_highlighter(path):
     if multi is None:
         return None
     io = BufferedIO()
+    hdiffs = []
     for n, hl in enumerate(out, 1):
         if n in multi or n > want:
             continue
@@ -568,8 +609,10 @@ def check_highlighter(path):
                                case + [n], "line is written", {"source": lines[n - 1], "highlighted": hl})
         shown = io.fetch_output()
         if nreg(shown).rstrip() != nreg(lines[n - 1]).rstrip():
-            return report.viol("highlighter:line-differs:" + line_feature(lines[n - 1]), "%s line %d is shown differently" % (os.path.basename(path), n),
-                               case + [n], lines[n - 1], shown)
+            hdiffs.append((n, lines[n - 1], shown, differing_line_kind(lines, n, shown.rstrip("\n"))))
+    if hdiffs:
+        n, src, shown, kind = worst_difference(hdiffs)
+        return report.viol("highlighter:line-differs:" + kind, "%s line %d is shown differently" % (os.path.basename(path), n), case + [n], src, shown)
     return None
 
 
